@@ -52,12 +52,14 @@ def histStep (backend : String) (kind : String) (mode : String) (acc : HAcc) (r 
         | _ => []
       let expected := ";".intercalate (expPre ++ [mres, m'.dump])
       -- the property, on the implementation's outputs alone
-      let opts := match frontOpts backend r with | .ok o => some o | .error _ => none
+      let opts := intendedOpts backend r
       let injViol : Option String :=
         if pre.any (fun p => (p.splitOn "CHANGED").length > 1) then
           some (if kind == "X" then "a process crash before COMMIT left part of the write in the database file"
                 else s!"a write that failed at an injected statement/connection failure (mode {mode}) changed the store")
         else none
+      let injViol := if (g.splitOn "LEAKED-TX").length > 1 then
+          some "a failed write left its transaction open (neither COMMIT nor ROLLBACK reached the connection)" else injViol
       let viol := match injViol with | some v => some v | none => specCheck backend acc.prev cur r opts
       { acc with m := m', prev := cur, now := acc.now + 1,
                  diff := if g != expected then some expected else none,
